@@ -52,6 +52,14 @@ def gen_func(rng, with_spaces):
         consts = [("%cst", base)]
     else:
         consts = []
+    gdecl = ""
+    if with_spaces and rng.random() < 0.25:
+        # a global (external memory) read by the accelerator ops
+        gname = f"gk{rng.randrange(10 ** 6)}"
+        gdecl = (f'  "memref.global"() <{{sym_name = "{gname}", type = {base}, initial_value = dense<{rng.choice([1, 2, 5])}> : tensor<4x4xi8>, '
+                 'sym_visibility = "private", constant}> : () -> ()\n')
+        lines.append(f"    %gv = memref.get_global @{gname} : {base}")
+        consts = consts + [("%gv", base)]
     cast_id = [0]
 
     def make_cast(src, chain=1):
@@ -91,10 +99,13 @@ def gen_func(rng, with_spaces):
             lines.append("    }")
         else:
             generic(2)
-    lines.append("    func.return")
+    # some functions hand a buffer (an argument or a local one) back to their caller: the boundary keeps its external memory space
+    ret = rng.choice([v for v in vals if v[1] == base] or [None]) if with_spaces and rng.random() < 0.2 else None
+    lines.append(f"    func.return {ret[0]} : {base}" if ret else "    func.return")
     # (a function that is not public keeps its arguments without a memory space: they still have to be moved next to the accelerator)
-    vis = "public " if not with_spaces or rng.random() < 0.8 else ""
-    return ("builtin.module {\n  func.func " + vis + "@f(%a : " + base + ", %b : " + base + ", %c : " + base + ", %n : index) {\n" + "\n".join(lines) + "\n  }\n}\n")
+    vis = "public " if not with_spaces or ret or rng.random() < 0.8 else ""
+    return ("builtin.module {\n" + gdecl + "  func.func " + vis + "@f(%a : " + base + ", %b : " + base + ", %c : " + base + ", %n : index)"
+            + (f" -> {base}" if ret else "") + " {\n" + "\n".join(lines) + "\n  }\n}\n")
 
 
 DYNI = -9223372036854775808
@@ -278,8 +289,13 @@ def run(pid: str, tier: str, seed: int, selftest=False, replay=None) -> int:
         if with_spaces is True:
             # function boundaries keep their external memory space
             ext = [str(a.type.memory_space) for a in fb.body.block.args if hasattr(a.type, "memory_space")]
+            ext += [str(t.memory_space) for t in fb.function_type.outputs.data if hasattr(t, "memory_space")]
             if any('"L1"' in e for e in ext):
-                rep.violation(name + "|signature", f"function arguments moved to local memory: {ext}", {"source": text, "after": str(fb)[:2000]})
+                rep.violation(name + "|signature", f"function arguments / results moved to local memory: {ext}", {"source": text, "after": str(fb)[:2000]})
+            # globals live in external memory: the accelerator reads a local copy of them
+            gl = [str(o.memref.type.memory_space) for o in fb.walk() if isinstance(o, memref.GetGlobalOp)]
+            if any('"L3"' not in g for g in gl) and not pipe.endswith("clear-memory-space"):
+                rep.violation(name + "|globals", f"memref.get_global outside the external memory space: {gl}", {"source": text, "after": str(fb)[:2000]})
         if pipe.endswith("clear-memory-space") and any(s_ in str(m) for s_ in ('"L1"', '"L3"', "#tsl.tsl")):
             rep.violation(name + "|cleared", "memory spaces / tiled layouts remain after clear-memory-space", {"source": text, "after": str(m)[:3000]})
         needl1 = 1 if (with_spaces is True or with_spaces == "l1") else 0
